@@ -290,7 +290,7 @@ func checkC02(c *Check) {
 		for _, u := range a.Undecided {
 			c.undecided("C02.2b rejection-inventory", fnName, "analysis", p.Pos(fn.Pos()), u)
 		}
-		seen := map[*ssa.Return]bool{}
+		seen := map[string]bool{}
 		for _, rs := range p.errReturns(a) {
 			if isAccept(rs) {
 				continue
@@ -303,8 +303,14 @@ func checkC02(c *Check) {
 				}
 			}
 			key := fmt.Sprintf("return#%d", returnOrdinal(fn, rs.rs.Instr))
-			if !seen[rs.rs.Instr] {
-				seen[rs.rs.Instr] = true
+			// instances are counted per return and notification: a helper that
+			// builds the notifications funnels them through one return
+			sk := fmt.Sprintf("%p/%s", rs.rs.Instr, rs.ec.Kind)
+			if rs.ec.Notif != nil {
+				sk += "/" + rs.ec.Notif.String()
+			}
+			if !seen[sk] {
+				seen[sk] = true
 				sites++
 			}
 			if rs.ec.Kind != "notificationError" || rs.ec.Notif == nil {
